@@ -20,14 +20,17 @@ from ..astutil import (ERROR_CLASSES, ERROR_ONLY_HELPERS, Locals, bool_eval, cal
 from ..cfg import CFG, ENTRY, EXIT, walk_own
 from ..core import Report
 from ..pyindex import FuncInfo, dotted
+from .scenario import NONE, TooComplex, Walker, const, private_callees
 
 LEVEL = ("resolver convergence only (output equality of two runs is not decided): for responses the statements that only run for a "
          "reference hand exactly one variable (the resolved component) to the shared code, which never asks again whether it was a "
          "reference; the raw parameter / request body flows only into its resolver and an error result leaves before the shared "
          "code reads the component; the chain loop reads nothing that is a stale snapshot of a variable it advances; the "
-         "field-by-field copy of a component parameter covers every attribute read downstream; every reference string goes "
-         "through parse_reference_path, on whose accepting paths every non-fragment URL component is empty; lookup misses return "
-         "errors; a schema reference evolves only name/required/python_name/default and records the dependency.")
+         "field-by-field copy of a component parameter covers every attribute read downstream and hands on the component's own values (no "
+         "dump / re-validation in between); the defaulted parameters of the schema descent are forwarded at every level; every reference string goes "
+         "through parse_reference_path, on whose accepting paths every non-fragment URL component is empty; when the component is "
+         "missing from its table every feasible path of the resolver that consulted the table leaves with an error value (scenario "
+         "walker); a schema reference evolves only name/required/python_name/default and records the dependency.")
 
 URL_FIELDS = ("scheme", "netloc", "path", "params", "query", "fragment")  # field order of urllib.parse.ParseResult
 USE_SITE_ATTRS = {"required", "name", "python_name", "default"}
@@ -40,10 +43,11 @@ def run(rep: Report, ctx: Any) -> str:
                       "shared code (no other input of it is changed) and the shared code does not test for references again; the raw "
                       "parameter / request body is only ever passed to its resolver, whose error result leaves before the component is "
                       "read; chain-following loops read the current link, not a snapshot taken before the loop")
-    rep.rule("R20.2", "parameter_from_data copies every Parameter attribute that is read downstream")
+    rep.rule("R20.2", "parameter_from_data copies every Parameter attribute that is read downstream, each as the component's own attribute "
+                      "value (or a value the caller gives), never rebuilt from a serialisation of the component")
     rep.rule("R20.3", "every .ref consumer validates through parse_reference_path (or follows a name-keyed component table with a "
-                      "cycle guard); on every accepting path of the validator every non-fragment URL component is empty; lookup misses "
-                      "return errors")
+                      "cycle guard); on every accepting path of the validator every non-fragment URL component is empty; when the "
+                      "looked-up component is missing, every path of the resolver that consulted the table returns an error")
     rep.rule("R20.4", "one class per schema: a reference evolves only required/name/python_name/default of the registered object and "
                       "records the dependency")
 
@@ -146,17 +150,36 @@ def run(rep: Report, ctx: Any) -> str:
               lhs=unresolved, rhs="data.request_body flows only into the chain resolver")
 
     # ---- R20.2 ----------------------------------------------------------------------------------------------------------
+    # The copy registered for a component parameter must be, attribute by attribute, the component itself: every attribute the shared code
+    # reads is present, and its value is the component's own attribute value - the same object the inline path would read - not something
+    # rebuilt from it (a dump that is validated again decodes nested `$ref`s by field name, where the document model's reference
+    # discriminator only knows the alias: the referenced parameter comes out typed differently from its inline twin).  The copy is read
+    # however it is written: keywords, `**` of a dict literal / dict(...) / a local holding one, <Model>.model_validate(...),
+    # <component>.model_copy(update=...).
     pfd = ix.func("schemas.parameter_from_data")
-    copied: set[str] = set()
+    copies: list[tuple[FuncInfo, ast.Call, dict[str, tuple[str, str]]]] = []   # attribute -> (how its value gets there, text)
     for g in region(ix, pfd):
+        sources = {a.arg for a in g.params if a.annotation is not None and any(isinstance(x, (ast.Name, ast.Attribute)) and
+                                                                              (dotted(x) or "").rsplit(".", 1)[-1] == "Parameter" for x in ast.walk(a.annotation))}
+        glc = Locals(g.node)
         for c in calls_in(g.node):
-            if call_name(c).rsplit(".", 1)[-1] == "Parameter":
-                copied |= {k.arg for k in c.keywords if k.arg}
-    rep.require(copied, "Parameter(...) copy in parameter_from_data")
+            entries = _copy_entries(c, g, glc, sources, pfields)
+            if entries is not None:
+                copies.append((g, c, entries))
+    rep.require(copies, "copy of the component parameter (Parameter(...), Parameter.model_validate(...), <component>.model_copy(...)) in parameter_from_data")
+    copied = set().union(*[set(e) for _, _, e in copies])
     read = set(attr_reads)
     rep.check(read <= copied, "R20.2", "parameter_from_data::copies-what-is-read",
               f"attributes {sorted(read - copied)} of a parameter are read by add_parameters but not copied for component parameters", where(pfd, pfd.node),
               lhs=sorted(read), rhs=sorted(copied))
+    changed = sorted({f"{a} <- {e[a][1][:60]}" for _, _, e in copies for a in read if a in e and e[a][0] not in ("own", "given")})
+    unreadable = sorted({e[a][1][:60] for _, _, e in copies for a in e if e[a][0] == "unknown"})
+    rep.require(not unreadable, f"a copy of the component parameter whose values can be read ({unreadable[:2]})")
+    rep.check(not changed, "R20.2", "parameter_from_data::copies-values-unchanged",
+              f"the copy registered for a component parameter does not hand on the component's own values ({changed[:3]}): what is rebuilt from a "
+              "dump is validated again by field name and loses every nested `$ref` (the reference discriminator reads the alias), so the "
+              "parameter used by reference is typed differently from the same parameter written inline", where(copies[0][0], copies[0][1]),
+              lhs=changed, rhs="<attribute>=<component>.<attribute> (or a value the caller gives) for every attribute read downstream")
     rep.floor("parameter_attributes_read", len(read), 4)
 
     # ---- R20.3 -------------------------------------------------------------------------------------------------------------
@@ -224,29 +247,38 @@ def run(rep: Report, ctx: Any) -> str:
                 rep.check(kind is not None, "R20.3", f"{short(f)}::{role_anon(n, f.node)}", "a reference string is used without validation", where(f, n),
                           lhs=norm(par)[:60] if par is not None else None, rhs="parse_reference_path(...)")
     rep.floor("reference_reads", n_ref, 8)
-    # lookup misses return errors
+    # lookup misses return errors - stated on paths (scenario walker): in the scenario "the component is not in the table"
+    # (`<table>.get(...)` yields its default, `<key> in <table>` is false, `<table>[...]` raises KeyError) every path of the resolver
+    # - private helpers walked with their arguments - that has consulted the table leaves with an error value (or an explicit raise).
+    # Whether the miss returns at once, sets a message that one hoisted test turns into the error, or is reported by a helper whose
+    # result the caller passes on, is the same path.
     for fname, table in (("properties._property_from_ref", "classes_by_reference"), ("schemas.parameter_from_reference", "classes_by_reference"),
                          ("responses.response_from_data", "responses")):
         f = ix.func(fname)
-        located = False
-        ok = False
-        for g in region(ix, f):
-            lookups = [n for n in ast.walk(g.node) if _is_lookup(n, table)]
-            if not lookups:
-                continue
-            located = True
-            gcfg = cfg_of(g, cfgs)
-            gerrs = error_names(g.node)
-            got = {nm for nm, ds in Locals(g.node).defs.items() for k, _, v in ds if k == "assign" and v is not None and any(_is_lookup(x, table) for x in ast.walk(v))}
-            miss = [(s, arm) for s in gcfg.stmts() if isinstance(s, ast.If) for arm in _implied_arms(s.test, lambda a, got=got: _missing_when(a, got, table))]
-            here = any(_arm_ends_in_error(gcfg, s, arm, gerrs) for s, arm in miss)
-            if here and g is not f:
-                # the helper's error result leaves the caller as an error, too
-                helpers = {h.name for h in region(ix, f) if h is not f and g in region(ix, h)}
-                here = _gated_uses(ix, f, cfgs, helpers, set(), own_only=True)[0]
-            ok = ok or here
-        rep.require(located, f"lookup in `{table}` in the region of {fname}")
-        rep.check(ok, "R20.3", f"{short(f)}::lookup-miss-is-error", "a dangling reference does not produce an error value", where(f, f.node))
+        helpers = private_callees(ix, f)
+        rep.require(any(_is_lookup(n, table) for g in [f, *helpers] for n in ast.walk(g.node)), f"lookup in `{table}` in the region of {fname}")
+
+        def membership(e: ast.AST, table: str = table) -> bool:
+            return isinstance(e, ast.Compare) and len(e.ops) == 1 and isinstance(e.ops[0], (ast.In, ast.NotIn)) and _is_table(e.comparators[0], table)
+
+        def miss(e: ast.AST, st: Any, w: Any, table: str = table) -> Any:
+            if isinstance(e, ast.Call) and _is_lookup(e, table):
+                return w.peek(e.args[1], st) if len(e.args) > 1 else NONE
+            if membership(e):
+                return const(isinstance(e.ops[0], ast.NotIn))
+            return None
+
+        try:
+            outs = Walker(f, axiom=miss, raises=lambda e, table=table: "KeyError" if isinstance(e, ast.Subscript) and _is_lookup(e, table) else None,
+                          event=lambda e, st, w, table=table: "consulted" if _is_lookup(e, table) or membership(e) else None, inline=helpers).run()
+        except TooComplex as e:
+            rep.require(False, f"paths of {fname} few enough to follow ({e})")
+        after = [o for o in outs if ("consulted" in o.flags or "raised" in o.flags) and o.final]
+        rep.require(after, f"path of {fname} that consults `{table}`")
+        no_error = [o for o in after if not (o.kind == "raise" or (o.kind == "return" and o.value.is_error()))]
+        rep.check(not no_error, "R20.3", f"{short(f)}::lookup-miss-is-error", "a dangling reference does not produce an error value", where(f, f.node),
+                  lhs=[f"{'KeyError escapes' if o.kind == 'uncaught' else 'returns a non-error value'} at line {getattr(o.node, 'lineno', '?')}" for o in no_error][:4],
+                  rhs="every path that has found the component missing returns an error")
 
     # ---- R20.4 ---------------------------------------------------------------------------------------------------------------
     pfr = ix.func("properties._property_from_ref")
@@ -332,6 +364,47 @@ def run(rep: Report, ctx: Any) -> str:
                       "a `$ref` with sibling keys as the other member, and the reference is lost without a diagnostic", f"{m.rel}:{getattr(ann, 'lineno', 0)}",
                       lhs=norm(ann)[:80], rhs="ReferenceOr[...]")
     rep.floor("reference_positions_in_document_model", n_pos, 20)
+
+    # ---- R20.8 -------------------------------------------------------------------------------------------------------------
+    # The schema descent threads two things through every level that decide how references inside a schema are treated: whether the
+    # properties of models are resolved now or in the later pass in which every reference exists, and the roots a dependency is recorded
+    # for.  Both have a default in the entry point's signature, so leaving one out of a nested call is silent: the callee falls back to
+    # the default and a component reached through that level is processed in the wrong phase (its references cannot be resolved yet)
+    # or records its dependencies for nobody - while the inline twin, built in another phase, works.  The slots are read off the entry
+    # point (its parameters that have a default); every parser function that has one of them and calls a parser function that accepts
+    # it must hand on its own value (as it is, or inside a value derived from it).
+    rep.rule("R20.8", "the defaulted parameters of the schema descent (those of property_from_data: the processing phase, the dependency "
+                      "roots) are forwarded: a parser function that has one and calls a parser function accepting it passes its own value")
+    entry = ix.func("properties.property_from_data")
+    ea = entry.node.args
+    epos = [*ea.posonlyargs, *ea.args]
+    threaded = [a.arg for a in epos[len(epos) - len(ea.defaults):]] + [a.arg for a, d in zip(ea.kwonlyargs, ea.kw_defaults) if d is not None]
+    rep.require(threaded, "parameters of property_from_data that have a default")
+    in_parser = [f for f in ix.all_functions if f.module.name.startswith("openapi_python_client.parser")]
+    forwards: dict[tuple[str, str, str], list[tuple[bool, ast.Call, FuncInfo]]] = {}
+    for f in in_parser:
+        mine = {a.arg for a in f.params} & set(threaded)
+        if not mine:
+            continue
+        flc = Locals(f.node)
+        for c in calls_in(f.node):
+            g = _callee(ix, f, c, in_parser)
+            if g is None:
+                continue
+            passed = _passed(c, g, flc)
+            if passed is None:
+                continue      # an opaque **mapping: what it passes cannot be read
+            for prm in sorted(mine & {a.arg for a in g.params}):
+                v = passed.get(prm)
+                carried = v is not None and prm in _names_behind(v, flc)
+                forwards.setdefault((short(f), short(g), prm), []).append((carried, c, f))
+    for (caller, callee, prm), sites in sorted(forwards.items()):
+        lost = [(c, f) for ok, c, f in sites if not ok]
+        rep.check(not lost, "R20.8", f"{caller}->{callee}::{prm}", f"{caller} does not hand its `{prm}` on to {callee}: the callee falls back to "
+                  "its default, so a schema reached through this level is processed in another phase / records its dependencies for other "
+                  "roots than the same schema written inline", where(lost[0][1], lost[0][0]) if lost else "", lhs=[norm(c)[:80] for c, _ in lost],
+                  rhs=f"{prm}=<the caller's {prm}>")
+    rep.floor("descent_parameters_forwarded", len(forwards), 7)
 
     from .c08 import check_no_alias
 
@@ -606,28 +679,6 @@ def _is_lookup(n: ast.AST, table: str) -> bool:
     return isinstance(n, ast.Subscript) and isinstance(n.ctx, ast.Load) and _is_table(n.value, table)
 
 
-def _missing_when(a: ast.AST, got: set[str], table: str) -> bool | None:
-    """truth value of the atom under which the looked-up component is absent"""
-    def is_got(e: ast.AST) -> bool:
-        return (isinstance(e, ast.Name) and e.id in got) or _is_lookup(e, table) or (isinstance(e, ast.NamedExpr) and any(_is_lookup(x, table) for x in ast.walk(e.value)))
-
-    if is_got(a):
-        return False
-    if isinstance(a, ast.Compare) and len(a.ops) == 1:
-        op, right = a.ops[0], a.comparators[0]
-        if is_got(a.left) and isinstance(right, ast.Constant) and right.value is None:
-            if isinstance(op, (ast.Is, ast.Eq)):
-                return True
-            if isinstance(op, (ast.IsNot, ast.NotEq)):
-                return False
-        if _is_table(right, table):
-            if isinstance(op, ast.NotIn):
-                return True
-            if isinstance(op, ast.In):
-                return False
-    return None
-
-
 def _carried(lp: ast.stmt) -> set[str]:
     """names the loop body (re)binds"""
     return {x.id for s in lp.body for x in ast.walk(s) if isinstance(x, ast.Name) and isinstance(x.ctx, ast.Store)}
@@ -778,6 +829,148 @@ def _possibly_true(cond: list[tuple[ast.expr, bool]], wanted: list[str]) -> tupl
         if all(bool_eval(t, env) is pol for t, pol in cond):
             can |= {w for w in wanted if env.get(w)}
     return can, other
+
+
+# ---- calls: who is called, what is passed ---------------------------------------------------------------------------------------------
+
+def _callee(ix: Any, f: FuncInfo, c: ast.Call, universe: list[FuncInfo]) -> "FuncInfo | None":
+    """the function a call denotes when that can be read off the call: a module-level function by its plain name (unique in the
+    universe), a method through self / cls, a method through the name of its class"""
+    cn = call_name(c)
+    last = cn.rsplit(".", 1)[-1]
+    head = cn.rsplit(".", 1)[0] if "." in cn else ""
+    if head == "":
+        hits = [g for g in universe if g.name == last and g.cls is None and g.parent is None]
+        return hits[0] if len(hits) == 1 else None
+    if head in ("self", "cls"):
+        return ix.find_method(f.cls, last) if f.cls is not None else None
+    owner = [k for k in ix.classes.values() if k.name == head.rsplit(".", 1)[-1]]
+    return ix.find_method(owner[0], last) if len(owner) == 1 else None
+
+
+def _passed(c: ast.Call, g: FuncInfo, lc: Locals) -> "dict[str, ast.AST] | None":
+    """parameter of g -> argument expression at this call (positional arguments by position, keywords, `**` of a dict literal / dict(...)
+    possibly held by a local); None when the call unpacks something that cannot be read"""
+    pos = [a.arg for a in [*g.node.args.posonlyargs, *g.node.args.args]]
+    if g.kind in ("method", "classmethod") and pos:
+        pos = pos[1:]
+    out: dict[str, ast.AST] = {}
+    for i, a in enumerate(c.args):
+        if isinstance(a, ast.Starred):
+            return None
+        if i < len(pos):
+            out[pos[i]] = a
+    for k in c.keywords:
+        if k.arg is not None:
+            out[k.arg] = k.value
+            continue
+        v = _unalias(k.value, lc)
+        if isinstance(v, ast.Dict) and all(isinstance(x, ast.Constant) and isinstance(x.value, str) for x in v.keys):
+            out.update({x.value: y for x, y in zip(v.keys, v.values)})
+        elif isinstance(v, ast.Call) and call_name(v) == "dict" and not v.args and all(x.arg is not None for x in v.keywords):
+            out.update({x.arg: x.value for x in v.keywords})
+        else:
+            return None
+    return out
+
+
+def _names_behind(v: ast.AST, lc: Locals, depth: int = 3) -> set[str]:
+    """the names an expression is computed from, locals followed to what they are bound from"""
+    seen: set[str] = set()
+    frontier = names_in(v)
+    for _ in range(depth + 1):
+        nxt: set[str] = set()
+        for n in frontier - seen:
+            seen.add(n)
+            for x in lc.values_of(n):
+                nxt |= names_in(x)
+        frontier = nxt
+    return seen
+
+
+# ---- the copy of a component ------------------------------------------------------------------------------------------------------
+
+DUMPS = {"model_dump", "dict", "model_dump_json", "json"}          # pydantic serialisers: by field name unless by_alias=True
+SHALLOW_COPIES = {"model_copy", "copy"}                            # the same attribute values in a new object
+
+
+def _copy_entries(c: ast.Call, g: FuncInfo, lc: Locals, sources: set[str], fields: set[str]) -> "dict[str, tuple[str, str]] | None":
+    """If the call builds a copy of a component (a `Parameter`): attribute -> (origin, text), origin being `own` (the component's own
+    attribute of the same name: the same object), `given` (a parameter of the function: the caller's override), `dumped` (taken from a
+    serialisation of the component by field name), `other` (any other expression) or `unknown` (cannot be read); None for other calls."""
+    cn = call_name(c)
+    parts = cn.split(".")
+    params = {a.arg for a in g.params}
+
+    def origin(attr: str, v: ast.AST) -> tuple[str, str]:
+        v = _unalias(v, lc)
+        if isinstance(v, ast.Attribute) and isinstance(v.value, ast.Name) and v.value.id in sources and v.attr == attr:
+            return ("own", norm(v))
+        if isinstance(v, ast.Name) and v.id in params:
+            return ("given", norm(v))
+        return ("other", norm(v))
+
+    def mapping(v: ast.AST, out: dict[str, tuple[str, str]], depth: int = 0) -> None:
+        """the entries a `**v` / model_validate(v) contributes, later ones overriding earlier ones"""
+        v = _unalias(v, lc)
+        if isinstance(v, ast.Dict):
+            for k, x in zip(v.keys, v.values):
+                if k is None:
+                    mapping(x, out, depth + 1)
+                elif isinstance(k, ast.Constant) and isinstance(k.value, str):
+                    out[k.value] = origin(k.value, x)
+                else:
+                    out[f"<{norm(k)}>"] = ("unknown", norm(v))
+        elif isinstance(v, ast.Call) and call_name(v) == "dict" and depth < 4:
+            for a in v.args:
+                mapping(a, out, depth + 1)
+            for k in v.keywords:
+                if k.arg is None:
+                    mapping(k.value, out, depth + 1)
+                else:
+                    out[k.arg] = origin(k.arg, k.value)
+        elif isinstance(v, ast.Call) and isinstance(v.func, ast.Attribute) and v.func.attr in DUMPS and isinstance(v.func.value, ast.Name) and v.func.value.id in sources:
+            by_alias = any(k.arg == "by_alias" and isinstance(k.value, ast.Constant) and k.value.value is True for k in v.keywords)
+            for f in fields:
+                out[f] = ("own" if by_alias and v.func.attr in ("model_dump", "dict") else "dumped", norm(v))
+        elif (isinstance(v, ast.Call) and call_name(v) == "vars" and len(v.args) == 1 and isinstance(v.args[0], ast.Name) and v.args[0].id in sources) or \
+                (isinstance(v, ast.Attribute) and v.attr == "__dict__" and isinstance(v.value, ast.Name) and v.value.id in sources):
+            for f in fields:
+                out[f] = ("own", norm(v))
+        else:
+            out[f"<{norm(v)[:40]}>"] = ("unknown", norm(v))
+
+    out: dict[str, tuple[str, str]] = {}
+    if parts[-1] == "Parameter" or (len(parts) >= 2 and parts[-2] == "Parameter" and parts[-1] in ("model_validate", "model_construct", "parse_obj", "construct")):
+        if parts[-1] in ("model_validate", "parse_obj"):
+            if len(c.args) != 1:
+                return {"<arguments>": ("unknown", norm(c))}
+            mapping(c.args[0], out)
+            return out
+        if c.args:
+            return {"<arguments>": ("unknown", norm(c))}
+        for k in c.keywords:
+            if k.arg is None:
+                mapping(k.value, out)
+            else:
+                out[k.arg] = origin(k.arg, k.value)
+        return out
+    if isinstance(c.func, ast.Attribute) and c.func.attr in SHALLOW_COPIES and isinstance(c.func.value, ast.Name) and c.func.value.id in sources:
+        for f in fields:
+            out[f] = ("own", norm(c.func.value))
+        upd = next((k.value for k in c.keywords if k.arg == "update"), None)
+        if upd is not None:
+            mapping(upd, out)
+        return out
+    return None
+
+
+def _unalias(v: ast.AST, lc: Locals, depth: int = 3) -> ast.AST:
+    """a local with one definition reads as that definition"""
+    while isinstance(v, ast.Name) and depth and len(lc.defs.get(v.id, ())) == 1 and lc.defs[v.id][0][0] == "assign" and lc.defs[v.id][0][2] is not None:
+        v = lc.defs[v.id][0][2]
+        depth -= 1
+    return v
 
 
 # ---- reference strings, lazily filled fields, document model -------------------------------------------------------------------
